@@ -76,6 +76,7 @@ def opC05Mapping (j : Json) : Except String Json := do
   let inputName ← (← j.getObjVal? "input").getStr?
   let cross ← (← j.getObjVal? "cross_pkg").getBool?
   let sigs ← (← getArrL j "sigs").mapM fun s => s.getStr?
+  let cstream : Bool := match j.getObjVal? "client_streaming" with | .ok (Json.bool b) => b | _ => false
   match findMsg sch inputName with
   | none => pure (unsupported s!"input message {inputName} not in schema")
   | some input =>
@@ -86,7 +87,7 @@ def opC05Mapping (j : Json) : Except String Json := do
         ("paths", jarr ((sigs.flatMap parseSig).map fun p => jarr (p.map Json.str))),
         ("keys", jarr (es.map fun e => Json.str e.key)),
         ("params", jarr (es.map fun e => Json.str e.param)),
-        ("param_list", jarr ((paramList es).map Json.str)),
+        ("param_list", jarr ((paramListOf cstream es).map Json.str)),
         ("emit", c05EmitJson (emitCheck es)),
         ("entries", jarr (es.map fun e =>
           let s := e.slot input
@@ -94,6 +95,7 @@ def opC05Mapping (j : Json) : Except String Json := do
             ("field", Json.str e.field.pbName), ("owner", Json.str e.last.owner),
             ("path", jarr (s.path.map jnat)), ("repeated", Json.bool s.repeated), ("map", Json.bool s.isMap),
             ("value", Json.bool s.isValue), ("ctor", optJson jnat s.ctor),
+            ("raw_owner", Json.bool s.rawOwner), ("is_msg", Json.bool s.isMsg),
             ("key_segs", jarr (e.keySegs.map Json.str)),
             ("attrs_resolve", Json.bool (resolveAttrs sch input e.keySegs == some (e.links.map (·.field))))]))])
 
@@ -102,14 +104,16 @@ def c05SlotOfJson (j : Json) : Except String Slot := do
   let path ← (← getArrL j "path").mapM fun x => x.getNat?
   let ctorJ ← j.getObjVal? "ctor"
   let ctor ← if ctorJ.isNull then pure none else do pure (some (← ctorJ.getNat?))
+  let optB (k : String) : Bool := match j.getObjVal? k with | .ok (Json.bool b) => b | _ => false
   pure ⟨path, ← (← j.getObjVal? "repeated").getBool?, ← (← j.getObjVal? "map").getBool?,
-        ← (← j.getObjVal? "value").getBool?, ctor⟩
+        ← (← j.getObjVal? "value").getBool?, ctor, optB "raw_owner", optB "is_msg"⟩
 
 open Model.Flatten in
 def c05CallJson : Except CallErr Val → Json
   | .ok v => Json.mkObj [("ok", c05ValToJson v)]
   | .error .valueError => Json.mkObj [("raised", Json.str "ValueError"), ("why", Json.str "mutual-exclusion")]
   | .error .ctorUnknownField => Json.mkObj [("raised", Json.str "ValueError"), ("why", Json.str "ctor-unknown-field")]
+  | .error .attributeError => Json.mkObj [("raised", Json.str "AttributeError"), ("why", Json.str "raw-protobuf-assignment")]
 
 open Model.Flatten in
 /-- `{"op":"c05.call","same_pkg":bool,"slots":[…],"args":[val|null…],"request":null|{"inst":val}|{"dict":val}}`
